@@ -225,6 +225,20 @@ def obligations(r, tier, seed):
     obs.append(Ob("C02/Graph.calc_chi2/after-poses-changed", graph_requery, scope="shape-bounded", bound="one 3-vertex, 2-edge graph",
                   funcs=["graphslam.graph.Graph.calc_chi2", BASE + ".calc_chi2"]))
 
+    def graph_reused_edges(k):
+        r_ = k.r
+        mk = lambda px: [r_.Vertex(7, k.pose("SE2", px + "a")), r_.Vertex(-2, k.pose("R2", px + "l")), r_.Vertex(3, k.pose("SE2", px + "b"))]
+        e1 = r_.EdgeOdometry([7, 3], k.sym_matrix("O1", 3), k.pose("SE2", "z1"))
+        e3 = r_.EdgeLandmark([3, -2], k.sym_matrix("O3", 2), k.pose("R2", "z3"), k.pose("SE2", "off"), 0)
+        g1 = r_.Graph([e1, e3], mk("first."))
+        first = g1.calc_chi2()
+        vs2 = mk("second.")
+        g2 = r_.Graph([e1, e3], [vs2[2], vs2[0], vs2[1]])          # the same edge objects, other vertex objects (same ids, other list order)
+        fresh = r_.Graph([r_.EdgeOdometry([7, 3], e1.information, e1.estimate), r_.EdgeLandmark([3, -2], e3.information, e3.estimate, e3.offset, 0)], mk("second."))
+        k.eq(g2.calc_chi2(), fresh.calc_chi2(), "chi2 of a graph built from re-used edge objects is the chi2 at ITS OWN vertices' poses")
+    obs.append(Ob("C02/Graph.calc_chi2/edge-objects-reused-in-a-second-graph", graph_reused_edges, scope="shape-bounded", bound="one 3-vertex, 2-edge graph",
+                  funcs=["graphslam.graph.Graph.calc_chi2", "graphslam.graph.Graph._initialize"]))
+
     # ---- the chi2 that optimize() accumulates and reports is the same sum over ALL edges (also edges that touch fixed vertices only)
     for fixed in ((), (0,), (0, 1), (0, 1, 2)):
         def reported(k, fixed=fixed):
@@ -234,7 +248,19 @@ def obligations(r, tier, seed):
             ghost = common.Ghost()
             Cut = common.opaque_edge_class(k, ghost)
             vs = [r_.Vertex(i, r_.PoseR2([k.real("v%dx" % i), k.real("v%dy" % i)]), fixed=(i in fixed)) for i in range(3)]
-            es = [Cut([0, 1]), Cut([1, 2]), Cut([2]), Cut([0]), Cut([1, 0])]
+            u, Om = k.vec("u", 2), k.sym_matrix("Ou", 2)
+            c_u = quadform(u, Om)
+
+            class ErrEdge(r_.BaseEdge):     # only calc_error is cut: chi2 / gradient / Hessian come from the real BaseEdge code
+                def calc_error(self):
+                    return k.np.array(u)
+
+                def is_valid(self):
+                    return self._is_valid()
+
+                def _chi2(self):
+                    return c_u
+            es = [Cut([0, 1]), Cut([1, 2]), Cut([2]), Cut([0]), Cut([1, 0]), ErrEdge([0, 1], Om, None), ErrEdge([2], Om, None)]
             g = r_.Graph(es, vs)
             with common.counting_spsolve(k, ghost):
                 ret = g.optimize(tol=0, max_iter=1, fix_first_pose=False, verbose=False)
